@@ -2,6 +2,7 @@ package queryer
 
 import (
 	"context"
+	"fmt"
 	"net/http"
 
 	"github.com/buildbuildio/pebbles/common"
@@ -137,6 +138,9 @@ func (q *MultiOpQueryer) queryBatch(inputs []*requests.Request) ([]map[string]in
 		if len(resp.Errors) != 0 {
 			return nil, resp.Errors
 		}
+		if resp.Data == nil {
+			return nil, fmt.Errorf("response from %s contains neither data nor errors", q.url)
+		}
 
 		results[i] = resp.Data
 	}
@@ -151,10 +155,18 @@ func (q *MultiOpQueryer) queryBatch(inputs []*requests.Request) ([]map[string]in
 		return nil, err
 	}
 
+	// service must answer each request of the batch
+	if len(resps) != len(inputsToFetch) {
+		return nil, fmt.Errorf("expected %d responses from %s, got %d", len(inputsToFetch), q.url, len(resps))
+	}
+
 	// format the result as needed
 	for i, resp := range resps {
 		if len(resp.Errors) != 0 {
 			return nil, resp.Errors
+		}
+		if resp.Data == nil {
+			return nil, fmt.Errorf("response from %s contains neither data nor errors", q.url)
 		}
 		results[toFetchIndexes[i]] = resp.Data
 	}
